@@ -15,4 +15,7 @@ MUTANTS = [
     ('c04-yielded-none-recorded', 'C04', M, "            elif value is not None:\n                event.value.value = value\n        except StopIteration:", "            else:\n                event.value.value = value\n        except StopIteration:"),
     ('c04-success-twice', 'C04', M, "            self.fire(event.child('success', event, event.value.value), *channels)\n", "            self.fire(event.child('success', event, event.value.value), *channels)\n            if event.value.promise:\n                self.fire(event.child('success', event, event.value.value), *channels)\n"),
     ('c04-exception-event-only-first', 'C04', M, "                self.fire(exception(*err, handler=event_handler, fevent=event))\n", "                if not getattr(event, '_x', False):\n                    self.fire(exception(*err, handler=event_handler, fevent=event))\n                event._x = True\n"),
+    # revert of repair 13e609e
+    ('c04-revert-value-flags-sticky-errors', 'C04', V, "                o.errors = o.errors or v.errors\n", "                o.errors = v.errors\n"),
+    ('c04-revert-value-flags-sticky-parent-errors', 'C04', V, "                o.parent.errors = o.parent.errors or o.errors\n", "                o.parent.errors = o.errors\n"),
 ]
